@@ -1,22 +1,23 @@
 /-
   C16 — optional/required scalars: null, range, ordering and SBE defaults.
 
-  Model: `Rt.Optional`/`Rt.Required` (transliteration of `optional_base` /
-  `required_base`, both comparison configurations), `Rt.genDefault` /
-  `Rt.builtInDefault` over the tables extracted from /repo on this run.
-  Specification: `Spec.Scalar.isNull`, `Spec.Scalar.optRel`, `Spec.Scalar.reqRel`, `Spec.Scalar.valueOr`,
-  `Spec.Scalar.inRange` on the exact denoted values, and `Spec.Scalar.sbeDefault`.
+  Model: `Rt.Scalar.Optional`/`Rt.Scalar.Required` (transliteration of
+  `optional_base` / `required_base`, both comparison configurations),
+  `Rt.Scalar.genDefault` / `builtInDefault` over the tables extracted from
+  /repo on this run.
+  Specification: `Spec.Scalar.isNull`, `optRel`, `reqRel`, `valueOr`, `inRange`
+  on the exact denoted values, and `sbeDefault`.
 
   All theorems quantify over every primitive type, every `min/max/null` triple
-  and every bit pattern (no size hypothesis: patterns are reduced to the width
-  of the type by the model and by the specification alike).
+  (NaN nulls included) and every bit pattern (no size hypothesis: patterns are
+  reduced to the width of the type by the model and by the specification
+  alike), and hold at full strength.
 
-  Two statements are FALSE for the current code and are kept at full strength
-  as `def … : Prop` with a kernel-checked refutation and a `_partial` theorem:
-  * a NaN null (`float`/`double`, in particular the SBE default): `has_value()`
-    is `val != NaN`, i.e. always true, and `null == null` is false;
-  * with `operator<=>` (C++20) the four ordering operators of a `float`/`double`
-    optional are ill-formed (`partial_ordering` → `strong_ordering`).
+  History: before the fixes `optional_base::has_value()` was `val != null`
+  (always true for the SBE default NaN null of `float`/`double`), `==` compared
+  raw values and `operator<=>` returned `std::strong_ordering` (ill-formed for
+  floating point); the then-false full statements were refuted here with the
+  witnesses that `vlib/props/c16.py` still replays (`WITNESSES`).
 -/
 import Sbepp.Lemmas.Optional
 import Sbepp.Rt.Defaults
@@ -26,221 +27,94 @@ set_option linter.unusedSimpArgs false
 namespace Sbepp.Properties.C16
 open Sbepp Sbepp.Ieee Sbepp.Rt.Scalar Sbepp.Spec.Scalar Sbepp.Lemmas.Optional
 
-/-! ## helpers: a null that is a number -/
-
-theorem null_num (T : Ty) (h : T.nullIsNaN = false) : ∃ n, T.p.load T.null = .num n := by
-  unfold Ty.nullIsNaN at h
-  cases hl : T.p.load T.null with
-  | nan => simp [hl] at h
-  | num n => exact ⟨n, rfl⟩
-
-/-- integers are never NaN -/
-theorem load_int (p : Prim) (hp : p.isFloat = false) (v : Nat) : p.load v = .num (p.toInt v) := by
-  cases p <;> simp [Prim.isFloat] at hp <;> rfl
-
-theorem int_null_not_nan (T : Ty) (hp : T.p.isFloat = false) : T.nullIsNaN = false := by
-  unfold Ty.nullIsNaN
-  rw [load_int T.p hp]
-  rfl
-
-/-! ## has_value / operator bool -/
-
-/-- full statement: `has_value()` is "not null" -/
-def has_value_full : Prop :=
-  ∀ (T : Ty) (v : Nat), Optional.hasValue T v = Spec.Scalar.hasValue T.p T.null v
-
 /-- the SBE default `float` optional (min FLT_MIN, max FLT_MAX, null quiet NaN) -/
 def floatDefaultTy : Ty := ⟨.float, 0x00800000, 0x7f7fffff, 0x7fc00000⟩
 
-theorem has_value_full_false : ¬ has_value_full := by
-  intro h
-  have := h floatDefaultTy 0x7fc00000
-  revert this
-  decide +kernel
+/-! ## has_value / operator bool -/
 
-theorem has_value_partial (T : Ty) (h : T.nullIsNaN = false) (v : Nat) :
+theorem has_value_model_eq (T : Ty) (v : Nat) :
+    Optional.hasValue T v = hasC (T.p.load T.null) (T.p.load v) := rfl
+
+/-- **has_value**: `has_value()` is "not null", for every null value (a NaN
+    null makes exactly the NaNs null; a NaN *value* of a type with a numeric
+    null is a value) -/
+theorem has_value_spec (T : Ty) (v : Nat) :
     Optional.hasValue T v = Spec.Scalar.hasValue T.p T.null v := by
-  obtain ⟨n, hn⟩ := null_num T h
-  unfold Optional.hasValue Spec.Scalar.hasValue uRel
-  rw [isNull_eq, hn]
-  cases T.p.load v with
-  | nan => simp [frel, fne, feq, isNullC]
-  | num x =>
-    by_cases hx : x = n
-    · subst hx; simp [frel, fne, feq, isNullC]
-    · have hx' : ¬ n = x := fun e => hx e.symm
-      have hxb : (x == n) = false := by simpa using hx
-      have hxb' : (n == x) = false := by simpa using hx'
-      simp [frel, fne, feq, isNullC, hxb, hxb']
+  rw [has_value_model_eq, hasC_eq, Spec.Scalar.hasValue, isNull_eq]
 
 /-- `explicit operator bool` is `has_value()` -/
 theorem to_bool_is_has_value (T : Ty) (v : Nat) : Optional.toBool T v = Optional.hasValue T v := rfl
 
 /-! ## default / nullopt construction -/
 
-/-- full statement: a default-constructed and a `nullopt`-constructed optional
-    hold the null value and report it (`has_value()`, `operator bool`) -/
-def default_is_null_full : Prop :=
-  ∀ T : Ty,
-    Spec.Scalar.isNull T.p T.null (Optional.default T) = true ∧
-    Spec.Scalar.isNull T.p T.null (Optional.fromNullopt T) = true ∧
-    Optional.hasValue T (Optional.default T) = false ∧
-    Optional.toBool T (Optional.default T) = false ∧
-    Optional.hasValue T (Optional.fromNullopt T) = false ∧
-    Optional.toBool T (Optional.fromNullopt T) = false
-
-theorem default_is_null_full_false : ¬ default_is_null_full := by
-  intro h
-  have := (h floatDefaultTy).2.2.1
-  revert this
-  decide +kernel
-
-/-- the stored value is the specification's null for EVERY type, NaN included -/
-theorem default_holds_null (T : Ty) :
-    Spec.Scalar.isNull T.p T.null (Optional.default T) = true ∧
-    Spec.Scalar.isNull T.p T.null (Optional.fromNullopt T) = true := by
-  have : Spec.Scalar.isNull T.p T.null T.null = true := by
-    rw [isNull_eq]
-    cases T.p.load T.null <;> simp [isNullC]
-  exact ⟨this, this⟩
-
-theorem default_is_null_partial (T : Ty) (h : T.nullIsNaN = false) :
+/-- **default_is_null**: a default-constructed and a `nullopt`-constructed
+    optional hold the null value and report it (`has_value()`, `operator bool`) -/
+theorem default_is_null (T : Ty) :
     Spec.Scalar.isNull T.p T.null (Optional.default T) = true ∧
     Spec.Scalar.isNull T.p T.null (Optional.fromNullopt T) = true ∧
     Optional.hasValue T (Optional.default T) = false ∧
     Optional.toBool T (Optional.default T) = false ∧
     Optional.hasValue T (Optional.fromNullopt T) = false ∧
     Optional.toBool T (Optional.fromNullopt T) = false := by
-  have hn := (default_holds_null T).1
+  have hn : Spec.Scalar.isNull T.p T.null T.null = true := by
+    rw [isNull_eq]
+    cases T.p.load T.null <;> simp [isNullC]
   have hv : Optional.hasValue T T.null = false := by
-    rw [has_value_partial T h, Spec.Scalar.hasValue]
-    have : Spec.Scalar.isNull T.p T.null T.null = true := hn
-    simp [this]
+    rw [has_value_spec, Spec.Scalar.hasValue, hn]
+    rfl
   exact ⟨hn, hn, hv, hv, hv, hv⟩
-
-/-- `default_is_null` for the nine integer primitives, unconditionally -/
-theorem default_is_null_int (T : Ty) (hp : T.p.isFloat = false) :
-    Optional.hasValue T (Optional.default T) = false ∧
-    Optional.toBool T (Optional.fromNullopt T) = false :=
-  let h := default_is_null_partial T (int_null_not_nan T hp)
-  ⟨h.2.2.1, h.2.2.2.2.2⟩
 
 /-- `required_base() = default` value-initialises -/
 theorem required_default_is_zero (T : Ty) : Required.default T = 0 := rfl
 
 /-! ## comparison rules -/
 
-/-- full statement: all six relations, both implementations, follow the
-    documented rules (and are well-formed) -/
-def cmp_rules_full : Prop :=
-  ∀ (impl : Impl) (T : Ty) (r : Rel) (a b : Nat),
-    Optional.rel impl T r a b = .val (Spec.Scalar.optRel T.p T.null r a b)
-
-/-- null == null is false for a NaN null (pre-C++20 operators) -/
-theorem cmp_rules_full_false : ¬ cmp_rules_full := by
-  intro h
-  have := h .ops floatDefaultTy .eq 0x7fc00000 0x7fc00000
-  revert this
-  decide +kernel
-
-/-- the same statement restricted to types whose null is a number -/
-def cmp_rules_numeric_null_full : Prop :=
-  ∀ (impl : Impl) (T : Ty) (r : Rel) (a b : Nat), T.nullIsNaN = false →
-    Optional.rel impl T r a b = .val (Spec.Scalar.optRel T.p T.null r a b)
-
-/-- … is still false: with `operator<=>`, `a < b` on `float` optionals is ill-formed -/
-theorem cmp_rules_numeric_null_full_false : ¬ cmp_rules_numeric_null_full := by
-  intro h
-  have := h .spaceship ⟨.float, 0x00800000, 0x7f7fffff, 0⟩ .lt 0x3f800000 0x40000000 (by decide +kernel)
-  revert this
-  decide +kernel
-
 theorem ops_model_eq (T : Ty) (r : Rel) (a b : Nat) :
     Optional.rel .ops T r a b = .val (opsC (T.p.load T.null) r (T.p.load a) (T.p.load b)) := by
   cases r <;> rfl
 
-/-- **cmp_rules, pre-C++20 operators**: for every type whose null is not a NaN,
-    all six operators follow the documented rules on all values (NaN and
-    infinities included) -/
-theorem cmp_rules_ops_partial (T : Ty) (h : T.nullIsNaN = false) (r : Rel) (a b : Nat) :
-    Optional.rel .ops T r a b = .val (Spec.Scalar.optRel T.p T.null r a b) := by
-  obtain ⟨n, hn⟩ := null_num T h
-  rw [ops_model_eq, optRel_eq, hn, ops_core]
+/-- the declared return type of `operator<=>` accepts both `return` statements -/
+theorem spaceship_well_formed (T : Ty) :
+    (Cat.convertsTo (Cat.of T.p) (Optional.spaceshipRet T) &&
+      Cat.convertsTo .strongOrdering (Optional.spaceshipRet T)) = true := by
+  unfold Optional.spaceshipRet
+  cases Cat.of T.p <;> rfl
 
-/-- **cmp_rules, `operator<=>`**: `==` and `!=` for every type whose null is not
-    a NaN; `<`, `<=`, `>`, `>=` for the nine integer primitives -/
-theorem cmp_rules_spaceship_partial (T : Ty) (h : T.nullIsNaN = false) (r : Rel)
-    (hw : T.p.isFloat = false ∨ r.isOrdering = false) (a b : Nat) :
-    Optional.rel .spaceship T r a b = .val (Spec.Scalar.optRel T.p T.null r a b) := by
-  obtain ⟨n, hn⟩ := null_num T h
-  cases hr : r.isOrdering
-  · -- == and != : same functions as the operators (`!(a == b)` is `a != b`)
-    rw [← cmp_rules_ops_partial T h]
-    cases r <;> simp [Rel.isOrdering] at hr <;> rfl
-  · have hp : T.p.isFloat = false := by
-      rcases hw with hp | hf
-      · exact hp
-      · rw [hr] at hf; cases hf
-    rw [optRel_eq, hn, load_int T.p hp a, load_int T.p hp b, ← ship_core n r hr]
-    have hship : Optional.rel .spaceship T r a b = .val (shipC n r (T.p.toInt a) (T.p.toInt b)) := by
-      cases r <;> simp [Rel.isOrdering] at hr <;>
-        simp [Optional.rel, Optional.spaceship, hp, shipC, Optional.toBool, Optional.hasValue, uRel, uCmp3,
-          frel, hn, load_int T.p hp a, load_int T.p hp b]
-    exact hship
+theorem spaceship_model_eq (T : Ty) (r : Rel) (hr : r.isOrdering = true) (a b : Nat) :
+    Optional.rel .spaceship T r a b = .val (shipC (T.p.load T.null) r (T.p.load a) (T.p.load b)) := by
+  have hw := spaceship_well_formed T
+  cases r <;> simp [Rel.isOrdering] at hr <;>
+    simp only [Optional.rel, Optional.spaceship, hw, if_true] <;> rfl
 
-/-- all six relations, both implementations, for the nine integer primitives -/
-theorem cmp_rules_int (impl : Impl) (T : Ty) (hp : T.p.isFloat = false) (r : Rel) (a b : Nat) :
+/-- **cmp_rules**: all six relations, both implementations (the six pre-C++20
+    operators; `==` and the `<=>`-derived `!=`, `<`, `<=`, `>`, `>=`), are
+    well-formed and follow the documented rules — null equals only null and
+    orders before every value, otherwise the underlying values compare — for
+    every primitive type, every null value and all operands, NaN included -/
+theorem cmp_rules (impl : Impl) (T : Ty) (r : Rel) (a b : Nat) :
     Optional.rel impl T r a b = .val (Spec.Scalar.optRel T.p T.null r a b) := by
+  have hops : Optional.rel .ops T r a b = .val (Spec.Scalar.optRel T.p T.null r a b) := by
+    rw [ops_model_eq, optRel_eq, ops_core]
   cases impl
-  · exact cmp_rules_ops_partial T (int_null_not_nan T hp) r a b
-  · exact cmp_rules_spaceship_partial T (int_null_not_nan T hp) r (Or.inl hp) a b
+  · exact hops
+  · cases hr : r.isOrdering
+    · -- == and != are the same functions in both configurations
+      rw [← hops]
+      cases r <;> simp [Rel.isOrdering] at hr <;> rfl
+    · rw [spaceship_model_eq T r hr, optRel_eq, ship_core _ r hr]
 
-/-- what the C++20 configuration does for floating-point optionals -/
-theorem spaceship_float_ordering_ill_formed (T : Ty) (hp : T.p.isFloat = true) (r : Rel)
-    (hr : r.isOrdering = true) (a b : Nat) : Optional.rel .spaceship T r a b = .illFormed := by
-  cases r <;> simp [Rel.isOrdering] at hr <;> simp [Optional.rel, Optional.spaceship, hp]
-
-/-! ## the two implementations agree -/
-
-def spaceship_agrees_with_operators_full : Prop :=
-  ∀ (T : Ty) (r : Rel) (a b : Nat), Optional.rel .spaceship T r a b = Optional.rel .ops T r a b
-
-theorem spaceship_agrees_with_operators_full_false : ¬ spaceship_agrees_with_operators_full := by
-  intro h
-  have := h ⟨.float, 0x00800000, 0x7f7fffff, 0⟩ .lt 0x3f800000 0x40000000
-  revert this
-  decide +kernel
-
-/-- the `<=>`-derived relations equal the hand-written operators: `==`/`!=` on
-    every type (NaN null included), the ordering relations on integers -/
-theorem spaceship_agrees_with_operators_partial (T : Ty) (r : Rel)
-    (hw : T.p.isFloat = false ∨ r.isOrdering = false) (a b : Nat) :
+/-- **spaceship_agrees_with_operators** -/
+theorem spaceship_agrees_with_operators (T : Ty) (r : Rel) (a b : Nat) :
     Optional.rel .spaceship T r a b = Optional.rel .ops T r a b := by
-  cases hr : r.isOrdering
-  · cases r <;> simp [Rel.isOrdering] at hr <;> rfl
-  · have hp : T.p.isFloat = false := by
-      rcases hw with hp | hf
-      · exact hp
-      · rw [hr] at hf; cases hf
-    rw [cmp_rules_spaceship_partial T (int_null_not_nan T hp) r (Or.inl hp),
-      cmp_rules_ops_partial T (int_null_not_nan T hp)]
+  rw [cmp_rules, cmp_rules]
 
 /-! ## value_or -/
 
-def value_or_spec_full : Prop :=
-  ∀ (T : Ty) (v d : Nat), Optional.valueOr T v d = Spec.Scalar.valueOr T.p T.null v d
-
-/-- a null (NaN) float optional returns its NaN instead of the default -/
-theorem value_or_spec_full_false : ¬ value_or_spec_full := by
-  intro h
-  have := h floatDefaultTy 0x7fc00000 0x3f800000
-  revert this
-  decide +kernel
-
-theorem value_or_spec_partial (T : Ty) (h : T.nullIsNaN = false) (v d : Nat) :
+/-- **value_or_spec** -/
+theorem value_or_spec (T : Ty) (v d : Nat) :
     Optional.valueOr T v d = Spec.Scalar.valueOr T.p T.null v d := by
   unfold Optional.valueOr Spec.Scalar.valueOr Optional.value
-  rw [to_bool_is_has_value, has_value_partial T h, Spec.Scalar.hasValue]
+  rw [to_bool_is_has_value, has_value_spec, Spec.Scalar.hasValue]
   cases Spec.Scalar.isNull T.p T.null v <;> simp
 
 /-! ## in_range (true at full strength) -/
@@ -340,31 +214,35 @@ theorem sbe_defaults_consistent (p : Prim) :
     Spec.Scalar.inRange p (sbeDefault p .min) (sbeDefault p .max) (sbeDefault p .null) = false := by
   cases p <;> decide +kernel
 
-/-! ## non-vacuity: the hypotheses are met by concrete non-trivial instances and
-    the statements compute -/
+/-! ## non-vacuity: the statements compute on concrete non-trivial instances
+    (the former counterexamples first) -/
 
--- a float optional whose null is a number (0.0): all partial theorems apply
+-- NaN null: default-constructed is null, null == null, null < 1.0, value_or returns the default
+example : Optional.hasValue floatDefaultTy (Optional.default floatDefaultTy) = false := by decide +kernel
+example : Optional.rel .ops floatDefaultTy .eq 0x7fc00000 0x7fc00000 = .val true := by decide +kernel
+example : Optional.rel .spaceship floatDefaultTy .le 0x7fc00000 0x7fc00000 = .val true := by decide +kernel
+example : Optional.rel .spaceship floatDefaultTy .lt 0x7fc00000 0x3f800000 = .val true := by decide +kernel
+example : Optional.valueOr floatDefaultTy 0x7fc00000 0x3f800000 = 0x3f800000 := by decide +kernel
+-- every NaN (payload, sign, signalling) is that null
+example : Optional.hasValue floatDefaultTy 0xff800001 = false := by decide +kernel
+-- a float optional whose null is a number (0.0): −0.0 is null too, NaN is a value, unordered with 1.0
 example : (⟨.float, 0x00800000, 0x7f7fffff, 0⟩ : Ty).nullIsNaN = false := by decide +kernel
--- every integer default type has a numeric null
-example : (sbeTy .int16).nullIsNaN = false := by decide +kernel
-example : (sbeTy .int64).p.isFloat = false ∨ Rel.lt.isOrdering = false := Or.inl rfl
--- −0.0 is the null of that type too, NaN is a value and is unordered with 1.0
 example : Spec.Scalar.isNull .float 0 0x80000000 = true := by decide +kernel
+example : Optional.hasValue ⟨.float, 0x00800000, 0x7f7fffff, 0⟩ 0x7fc00000 = true := by decide +kernel
 example : Optional.rel .ops ⟨.float, 0x00800000, 0x7f7fffff, 0⟩ .lt 0x7fc00000 0x3f800000 = .val false := by
   decide +kernel
+example : Optional.rel .spaceship ⟨.float, 0x00800000, 0x7f7fffff, 0⟩ .ge 0x7fc00000 0x3f800000 = .val false := by
+  decide +kernel
 example : Optional.rel .ops ⟨.float, 0x00800000, 0x7f7fffff, 0⟩ .ne 0x7fc00000 0x7fc00000 = .val true := by
+  decide +kernel
+-- C++20: ordering float optionals is well-formed and computes
+example : Optional.rel .spaceship ⟨.double, 0, 0, 0⟩ .le 0 0 = .val true := by decide +kernel
+example : Optional.rel .spaceship ⟨.float, 0x00800000, 0x7f7fffff, 0⟩ .lt 0x3f800000 0x40000000 = .val true := by
   decide +kernel
 -- null orders before INT16_MIN+1 in both implementations
 example : Optional.rel .ops (sbeTy .int16) .lt 0x8000 0x8001 = .val true := by decide +kernel
 example : Optional.rel .spaceship (sbeTy .int16) .lt 0x8000 0x8001 = .val true := by decide +kernel
 example : Optional.rel .spaceship (sbeTy .uint64) .ge (2 ^ 64 - 1) 0 = .val false := by decide +kernel
--- the witnesses of the refutations, spelled out
-example : Optional.hasValue floatDefaultTy (Optional.default floatDefaultTy) = true := by decide +kernel
-example : Optional.rel .ops floatDefaultTy .eq 0x7fc00000 0x7fc00000 = .val false := by decide +kernel
-example : Spec.Scalar.optRel .float 0x7fc00000 .eq 0x7fc00000 0x7fc00000 = true := by decide +kernel
-example : Optional.valueOr floatDefaultTy 0x7fc00000 0x3f800000 = 0x7fc00000 := by decide +kernel
-example : Spec.Scalar.valueOr .float 0x7fc00000 0x7fc00000 0x3f800000 = 0x3f800000 := by decide +kernel
-example : Optional.rel .spaceship ⟨.double, 0, 0, 0⟩ .le 0 0 = .illFormed := by decide +kernel
 -- the literal evaluator rejects what a C++ compiler rejects
 example : evalLit .int16 "-327678" = none := by decide +kernel
 example : evalLit .int64 "-9223372036854775808" = none := by decide +kernel
